@@ -1072,6 +1072,15 @@ impl<'ir, 'eng> FuelAsmBuilder<'ir, 'eng> {
         true_block: &BranchToWithArgs,
         false_block: &BranchToWithArgs,
     ) -> Result<(), CompileError> {
+        if true_block.block == false_block.block && true_block.args == false_block.args {
+            // Both edges lead to the same block and pass the same values (e.g. mem2reg adding
+            // a block argument below a `cbr c, b(), b()` that simplify-cfg produced): the
+            // condition does not matter.
+            self.compile_branch_to_phi_value(true_block)?;
+            let label = self.block_to_label(&true_block.block);
+            self.cur_bytecode.push(Op::jump_to_label(label));
+            return Ok(());
+        }
         if true_block.block == false_block.block && true_block.block.num_args(self.context) > 0 {
             return Err(CompileError::Internal(
                 "Cannot compile CBR with both branches going to same dest block",
